@@ -176,7 +176,10 @@ class DebugInfo:
                 # and anything between the end of the last child
                 # statement and the end of the block is part of the
                 # "end statement" of the block.
-                last_child = children[-1]
+                # (the child that ends last; with a single-line IF as
+                # the last statement of the block, the statement nested
+                # in it starts later but ends earlier than the IF)
+                last_child = max(children, key=lambda r: r.end_offset)
                 add_node_record(block.end_stmt,
                                 last_child.end_offset,
                                 end_offset)
